@@ -1,6 +1,7 @@
 import WcModel.Properties.C03lower
 import WcModel.Properties.C02win
 import WcModel.Properties.C03win
+import WcModel.Properties.C02negwin
 
 /-!
 # C03 under Windows rules — the sandwich for whole path patterns, the lower bound in fnmatch mode
@@ -15,6 +16,8 @@ rules on the separator-normalised subject:
   for every subject `s` (either separator, hidden pieces after either).  This is the statement the
   search `windows-rules-sandwich` of the C03 check evaluates on the real code.
 * `C03_read_sandwich_forcewin` — the flag form for `FORCEWIN | PATHNAME | GLOBSTAR | EXTMATCH`.
+* `C03_matchbase_win` — the sandwich under MATCHBASE: the implicit prefix never consumes a hidden piece
+  after either separator.
 * `C03_lower_win` — fnmatch mode, pattern text beginning with a written dot: accepted exactly when
   the normalised name is in the documented language (hidden names are granted as documented).
 -/
@@ -70,6 +73,25 @@ theorem C03_lower_win (c : Cfg) (h : FnX c) (hg0 : c.globstar0 = false)
   have hc : UnixCfg c := ⟨h.unix, h.wdd, h.bslash, h.realpath⟩
   obtain ⟨pW, rW, hW, hrW, _, hall⟩ := win_eq_unix_ci_ex hc p hp hd hU hrU
   exact ⟨pW, rW, hW, hrW, (hall s).trans hiff⟩
+
+open WcModel.C02neg PPN in
+/-- **the sandwich under MATCHBASE, Windows rules**: the implicit `**/` prefix never consumes a
+    hidden piece, whichever separator precedes it — whatever the Windows regex accepts has only
+    visible pieces (cut at either separator) in front of the last one -/
+theorem C03_matchbase_win (cfg : Cfg) (h : PathXM cfg)
+    (ctx : PCtx) (hdot : ctx.dot = cfg.dot) (hci : ctx.ci = !cfg.caseSensitive) (g : Pat)
+    (hpr : segOKN (.pat g) = true) (hg : (Seg.pat g).mayScope = true)
+    (hb : '\\' ∉ PP.print g) (hd : NoWinDrive cfg (PP.print g))
+    (s : List Char) (hD3 : s.getLast? ≠ some '\n') :
+    ∃ pW rW, parseItems cfg.toWin (winDrive cfg.toWin) (PP.print g) = .ok pW ∧ pW.toRe = some rW ∧
+      (pathLangR ctx .must ⟨false, [.glob, .pat g], false⟩ (normName s) = true → rW.FullMatch s) ∧
+      (rW.FullMatch s → ∃ init x, pieces (normName s) = init ++ [x] ∧ init.all (visible ctx.dot) = true ∧
+          segMatch ctx .may g x = true) := by
+  obtain ⟨pU, rU, hU, hrU, hmust, hmay⟩ := C03_matchbase_faithful cfg h (winDrive cfg) ctx hdot hci g hpr hg
+    (normName s) (fun hh => hD3 (normName_last_nl hh))
+  obtain ⟨pW, rW, hW, hrW, _, hall⟩ := win_eq_unix_ci_ex (pathXM_unixCfg h) (PP.print g)
+    ⟨hb, fun e => by rw [pathXM_pathname h] at e; cases e⟩ hd hU hrU
+  exact ⟨pW, rW, hW, hrW, fun hm => (hall s).mpr (hmust hm), fun hm => hmay ((hall s).mp hm)⟩
 
 /-! ### non-vacuity -/
 
